@@ -39,7 +39,7 @@ def searches(r, pred=lambda e: True):
     return out
 
 
-def t11(ctx: Ctx):
+def t11(ctx: Ctx, only_strip=False):
     model = ctx.model
     rule = "T11"
     ctx.rule(rule, floor=2, what="leading C0-control/space stripped, TAB/CR/LF removed everywhere")
@@ -56,6 +56,8 @@ def t11(ctx: Ctx):
         ok = frozenset(got) == C0_AND_SPACE
     ctx.ob(rule, fi.qual, "leading strip", ok, f"the input must be lstrip()ped of exactly chr(0)..chr(0x20) (found {strips and strips[0].func[2]}, set {got!r})",
            where(fi, fi.node), sample="lstrip(chr(0)..chr(32))")
+    if only_strip:
+        return      # the caller's property depends only on what is stripped at the ends (a trailing blank survives parsing)
     removed = set()
     for e in r.by_kind("call"):
         if e.func[0] == "attr" and e.func[2] == "replace" and len(e.args) == 2 and e.args[1] == ("const", "") and e.args[0][0] == "elem":
@@ -423,6 +425,24 @@ def split_netloc_table(ctx: Ctx):
     ctx.ob(rule, fi.qual, "host/port separator", ok,
            "the port must be split at the ':' after ']' for bracketed hosts and at the first ':' only when there is no '['",
            where(fi, fi.node), sample="'[' .. ']' then ':' | first ':' when no '['")
+    # ... and the test for a bracket looks at the text the bracket is then searched in (the part after the last '@'): a '[' in
+    # the userinfo is plain text and must not switch the host/port split to the bracket form
+    mism = []
+    paired = 0
+    for e, dl, d, recv in ss:
+        if dl != "[":
+            continue
+        known = {k[3] for k, fv in e.state.facts.items() if fv is True and k[0] == "cmp" and k[1] == "In" and k[2] == ("const", "[")}
+        if known:
+            paired += 1
+            if recv not in known:
+                mism.append((e, recv, known))
+    if paired:
+        ctx.instance(rule)
+        ctx.ob(rule, fi.qual, "bracket test and bracket search", not mism,
+               (f"the presence of '[' is established for {sorted(show(x)[:30] for x in mism[0][2])} but the bracket is searched for in "
+                f"{show(mism[0][1])[:30]}: a '[' in the userinfo would select the bracketed-host split for a host that has no bracket")
+               if mism else "", where(fi, mism[0][0].node if mism else fi.node), sample="same text")
     # empty user -> None, password None only when no ':' was present
     ctx.instance(rule)
     rets = [(s, v) for s, v, _n in r.returns if v[0] == "tuple" and len(v[1]) == 4]
